@@ -45,7 +45,8 @@ DsoEv ==
      IN viol' = Note(IF E.expectStream THEN E.present /\ E.got = E.want /\ E.brkOk /\ E.countOk ELSE ~E.present \/ E.got = E.want, viol, "C18-linker-list-differs")
   /\ drift' = Note(E.usedDirect = (E.direct.phdr # 0), drift, "auxv-resolution")
   /\ Inc("dso") /\ nchk' = nchk + 1
-Failed == E.ev = "failed" /\ UNCHANGED <<viol, drift, nchk, cnt>>
+(* every scenario is a legal target under a legal configuration: its streams have to exist *)
+Failed == E.ev = "failed" /\ viol' = Note(FALSE, viol, "C18-dump-of-a-legal-target-failed") /\ UNCHANGED <<drift, nchk, cnt>>
 TNext == l <= Len(Rec) /\ (Raw \/ MemInfoEv \/ HandlesEv \/ SysInfoEv \/ DsoEv \/ Failed) /\ l' = l + 1 /\ UNCHANGED vars
 TSpec == TInit /\ [][TNext]_tvars
 Verdict == l = Len(Rec) + 1 =>
